@@ -6,6 +6,7 @@ import (
 	"go/token"
 	"go/types"
 	"math/big"
+	"os"
 	"strings"
 
 	"golang.org/x/tools/go/ssa"
@@ -687,6 +688,9 @@ func (m *Machine) Concretize(t *Term, lo, hi int64, what string) int64 {
 	}
 	if hi-lo > 4096 {
 		panic(m.unsupported(fmt.Sprintf("concretize %s over %d values", what, hi-lo+1)))
+	}
+	if hi-lo > 8 && os.Getenv("GOSMT_DEBUG") != "" {
+		fmt.Printf("CONCRETIZE %s over %d values: %s%s\n", what, hi-lo+1, t.Pretty(3), m.where())
 	}
 	conds := make([]*Term, 0, hi-lo+1)
 	for v := lo; v <= hi; v++ {
